@@ -14,7 +14,8 @@ class Layer:
     `execute(case)` returns a vf.common.Outcome.
     """
 
-    def __init__(self, name, *, execute, strategy=None, cases=None, budget=None, setup=None, stall_is_violation=False):
+    def __init__(self, name, *, execute, strategy=None, cases=None, budget=None, setup=None, stall_is_violation=False, stall_s=None):
+        self.stall_s = stall_s  # one case of this layer legitimately runs for minutes (a whole fuzzing campaign): own watchdog limit
         self.stall_is_violation = stall_is_violation  # non-termination is part of the property (C07, C08, C12, C13, C15)
         assert (strategy is None) != (cases is None)
         self.name = name
